@@ -635,6 +635,8 @@ class OpsMixin:
         return UVal(t, m.elem_cls)
 
     def getitem(self, o, k):
+        if isinstance(k, ExtRef) and k.path.endswith("newaxis") and getattr(self, "newaxis_cls", None):
+            return self.newaxis_cls(o)
         if isinstance(o, SymMap):
             kt = self.to_u(self.hashable(k))
             if not self.ctx.branch(z3.Select(o.has, kt), tag="dict-has-key"):
